@@ -60,6 +60,7 @@ def chunks(tier, seed):
 def floors(tier):
     q = tier == "quick"
     return {"monitors": {NONE_IFF: 50000, ROUTE: 20000},
+            "counters": {"history_call:dist_cut": 2000, "history_call:sub_network": 1000, "history_call:all_pairs_cut": 1000},
             "classes": {"self_loop": 200, "parallel_edges": 200, "parallel_diff_weight": 100, "zero_weight": 200,
                         "orient_two_way": 200, "orient_direct": 200, "orient_reverse": 200,
                         "unreachable_pair": 200, "tie": 100, "multi_vertex_geom": 500,
@@ -214,8 +215,36 @@ def run_case(case, ctx):
 
     net, ids, nodes, _e = G.build_network(spec)
     pairs = [(s, t) for s in range(n) for t in range(n) if s != t]
-    random.Random(case["ord"]).shuffle(pairs)
+    hrng = random.Random(case["ord"])
+    hrng.shuffle(pairs)
+    finite = sorted({D[a][b] for a in range(n) for b in range(n) if D[a][b] != G.INF})
     for i, (s, t) in enumerate(pairs):
+        # call history on the same Network object: other routing requests (bounded, target-less, from the same or
+        # another source) are made between the judged path requests; whatever labels they leave must not be reused
+        if hrng.random() < 0.5:
+            src = s if hrng.random() < 0.7 else hrng.randrange(n)
+            cut = hrng.choice(finite) + hrng.choice([0.0, 0.0, 0.25, -0.25]) if finite else 1.0
+            kind_h = hrng.choice(["dist_cut", "dist_cut", "dist_all", "dist_pair", "sub_network", "all_pairs_cut"])
+            if kind_h == "dist_cut":
+                hr = M.call(net.shortest_distance, ids[src], None, cut)
+            elif kind_h == "dist_all":
+                hr = M.call(net.shortest_distance, ids[src])
+            elif kind_h == "dist_pair":
+                hr = M.call(net.shortest_distance, ids[src], ids[hrng.randrange(n)])
+            elif kind_h == "sub_network":
+                hr = M.call(net.sub_network, ids[src], cut, "TOPOLOGIC", False)
+            else:
+                hr = M.call(net.all_shortest_distances, cut)
+                if hrng.random() < 0.5:            # ... whose last processed source is then followed by a request
+                    last = M.call(net.getNodesId)
+                    if not M.is_raised(last) and len(last):
+                        s2 = ids.index(last[-1]) if last[-1] in ids else s
+                        others = [b for b in range(n) if b != s2]
+                        if others:
+                            s, t = s2, hrng.choice(others)
+            ctx.count("history_call:" + kind_h)
+            if M.is_raised(hr):
+                ctx.count("history_call_raised:" + kind_h)
         if i % 3 == 0:
             tr = M.call(net.shortest_path, nodes[s], nodes[t])
         else:
